@@ -62,6 +62,14 @@ impl Decoder for FrameCodec {
         use bytes::Buf;
         use serde_amqp::de::Deserializer;
 
+        // The 4-byte size has been consumed by the length delimited codec. A frame whose
+        // size field is smaller than the mandatory 8-byte frame header is malformed
+        if src.len() < 4 {
+            return Err(Error::DecodeError(
+                "Frame is smaller than the frame header".to_string(),
+            ));
+        }
+
         let doff = src.get_u8();
         let ftype = src.get_u8();
         let _ignored = src.get_u16();
